@@ -69,9 +69,16 @@ def main():
     build_log = ''
     with C.Lock():
         gen = C.regenerate()
+        translator_errors = []
         for g in gen:
             if g.get('error'):
                 ctx.notes.append(f"translator {g['file']}: {g['error']}")
+                # relevant only if the property's own Lean modules import that generated file
+                gen_file = {'gen_semiring': 'Semiring', 'gen_vector': 'Vector', 'gen_dispatch': 'Dispatch',
+                            'gen_result': 'Result', 'gen_cli': 'Cli'}.get(g['file'], g['file'])
+                closure = C.lean_closure(modules)
+                if any(p.endswith(os.path.join('Gen', gen_file + '.lean')) for p in closure):
+                    translator_errors.append(f"{g['file']}: {str(g['error'])[-300:]}")
             ctx.gen_notes += [f"{g['file']}: {n}" for n in g.get('notes', [])]
         ok_drv, out, _ = C.lake_build(['mwpdrv', 'Mwp.AuditCmd'])
         if not ok_drv:
@@ -113,6 +120,10 @@ def main():
             discharged.append(fq)
     if forb:
         undischarged.append(('source-scan', '; '.join(forb[:5])))
+    if translator_errors:
+        # the regenerated part of the model could not be produced from the current source: the tables in
+        # lean/Mwp/Gen are stale, so nothing proved about them is tied to this tree
+        undischarged.append(('translator', 'gen_lean.py could not regenerate: ' + ' | '.join(translator_errors)))
     if model_broken:
         undischarged.append(('model-build', 'the executable model / driver does not build: ' + model_broken))
 
@@ -136,7 +147,7 @@ def main():
     # failing-input search: a proof obligation or the correspondence broke, yet the property held on
     # everything explored -> explore with the thorough budget (time-boxed) for a concrete violation
     searched = False
-    if infra_error is None and not ctx.violations and (ctx.disagreements or not ok_props) \
+    if infra_error is None and not ctx.violations and (ctx.disagreements or not ok_props or translator_errors) \
             and tier == 'quick' and ctx.drv is not None:
         searched = True
         ctx.tier = 'thorough'
